@@ -337,7 +337,8 @@ pub fn gen_plan(rng: &mut Prng, property: &str, tier: &Tier) -> EnvPlan {
         }
     };
     let nvars = rng.range(1, 6);
-    let set_bits = rng.range(1, 4);
+    // mostly small universes (every pair of states is reachable), sometimes up to 2^8 elements
+    let set_bits = if rng.chance(1, 8) { rng.range(5, 8) } else { rng.range(1, 4) };
     let clients = rng.range(1, tier.max_clients as usize) as u8;
     let nsteps = rng.range(5, tier.max_steps);
     let mut names: Vec<String> = fast::NAME_POOL.iter().map(|s| s.to_string()).collect();
@@ -2007,6 +2008,16 @@ impl<'p> Exec<'p, UWorld> {
         if c19 {
             self.check_sets(step_no, &opname)?;
         }
+        // what the sets actually contain is part of the run's trace (read off the diagrams)
+        let mut parts = vec![step_no as u64];
+        for (id, sl) in &self.ext {
+            parts.push(*id as u64);
+            let members = self.set_members(&sl.set.bdd.borrow()).unwrap_or_default();
+            parts.push(members.iter().fold(0u64, |acc, e| acc.rotate_left(7) ^ (*e as u64 + 1)));
+        }
+        let d = mix(&parts);
+        self.trace.push(d);
+        self.states.push(d);
         Ok(true)
     }
 }
